@@ -627,8 +627,16 @@ func ruleL4(c *Ctx) *RuleResult {
 
 	roots := append(append([]*ssa.Function{}, ro.W...), ro.R...)
 	shared := 0
+	reqLocal := c.requestLocalTypes(laW, laR)
+	for t := range reqLocal {
+		r.Notes = append(r.Notes, "request-local type (allocated only by request code, never stored into shared state): "+t)
+	}
+	sort.Strings(r.Notes)
 	for _, f := range fields {
 		fname := c.fieldName(f)
+		if reqLocal[c.fieldOwner(f)] {
+			continue
+		}
 		// request-side accesses on objects that are not fresh in the accessing function
 		var rs []site
 		for _, s := range rAcc[f] {
@@ -1041,4 +1049,72 @@ func ruleL6(c *Ctx) *RuleResult {
 	}
 	r.Instances = n
 	return r
+}
+
+// requestLocalTypes: library struct types every allocation of which happens in a function that
+// only request goroutines run, and pointers to which are never stored into a field, a global or
+// a channel by library code. Such objects are confined to the request goroutine that created them.
+func (c *Ctx) requestLocalTypes(laW, laR *lockAnalysis) map[string]bool {
+	allocIn := map[string][]*ssa.Function{}
+	escaped := map[string]bool{}
+	name := func(t types.Type) string {
+		n := namedOf(t)
+		if n == nil || n.Obj().Pkg() == nil || !isLibPkgPath(n.Obj().Pkg().Path()) {
+			return ""
+		}
+		if _, ok := n.Underlying().(*types.Struct); !ok {
+			return ""
+		}
+		return n.Obj().Name()
+	}
+	for _, fn := range c.Funcs {
+		allInstrs(fn, func(in ssa.Instruction) {
+			switch x := in.(type) {
+			case *ssa.Alloc:
+				if x.Heap {
+					if n := name(x.Type()); n != "" {
+						allocIn[n] = append(allocIn[n], fn)
+					}
+				}
+			case *ssa.Store:
+				if n := name(stripConv(x.Val).Type()); n != "" {
+					if _, isPtr := stripConv(x.Val).Type().Underlying().(*types.Pointer); isPtr {
+						if _, local := x.Addr.(*ssa.Alloc); !local {
+							escaped[n] = true
+						}
+					}
+				}
+			case *ssa.Send:
+				if n := name(stripConv(x.X).Type()); n != "" {
+					escaped[n] = true
+				}
+			case *ssa.MakeClosure:
+				for _, b := range x.Bindings {
+					if n := name(b.Type()); n != "" {
+						escaped[n] = true
+					}
+				}
+			case *ssa.MapUpdate:
+				if n := name(stripConv(x.Value).Type()); n != "" {
+					escaped[n] = true
+				}
+			}
+		})
+	}
+	out := map[string]bool{}
+	for n, fns := range allocIn {
+		if escaped[n] {
+			continue
+		}
+		ok := true
+		for _, fn := range fns {
+			if len(laR.ctxsOf[fn]) == 0 || len(laW.ctxsOf[fn]) > 0 {
+				ok = false
+			}
+		}
+		if ok {
+			out[n] = true
+		}
+	}
+	return out
 }
